@@ -10,6 +10,7 @@
 package main
 
 import (
+	"bytes"
 	"crypto/ecdsa"
 	"encoding/hex"
 	"encoding/json"
@@ -92,6 +93,7 @@ type ValS struct {
 	Bls     int    `json:"bls"`
 	MainBad bool   `json:"main_bad,omitempty"`
 	BlsBad  bool   `json:"bls_bad,omitempty"`
+	BadForm int    `json:"bad_form,omitempty"` // shape of the undecodable key bytes (see malformedMain / malformedBls)
 	Role    uint8  `json:"role"`
 	Status  uint8  `json:"status"`
 	Stake   uint64 `json:"stake"`
@@ -229,9 +231,54 @@ func proofBytes(p ProofS) []byte {
 		return b[:len(b)-1]
 	case 2:
 		return junkProof(p)
-	default:
+	case 3:
 		return []byte{}
 	}
+	// 4..11: a genuine proof (valid VRF point) whose scalar s (bytes 0..31) or t (bytes 32..63)
+	// is out of range: 0, the group order n, n+1, 2^256-1
+	b := append([]byte{}, honestProof(p).proof...)
+	order := crypto.S256().Params().N
+	var val []byte
+	switch (p.Kind - 4) % 4 {
+	case 0:
+		val = make([]byte, 32)
+	case 1:
+		val = order.Bytes()
+	case 2:
+		val = new(big.Int).Add(order, big.NewInt(1)).Bytes()
+	default:
+		val = bytes.Repeat([]byte{0xff}, 32)
+	}
+	off := 0
+	if p.Kind >= 8 {
+		off = 32
+	}
+	copy(b[off:off+32], val)
+	return b
+}
+
+// malformedKind: a proof form out of all non-genuine ones (1..11)
+func malformedKind(r *vf.Rng) int { return 1 + r.Intn(11) }
+
+// proofCrashes asks the VRF library itself whether ProofToHash panics on these bytes
+var crashCache = map[string]bool{}
+
+func proofCrashes(pb []byte) (crashed bool) {
+	if v, ok := crashCache[string(pb)]; ok {
+		return v
+	}
+	defer func() {
+		if r := recover(); r != nil {
+			crashed = true
+		}
+		crashCache[string(pb)] = crashed
+	}()
+	pk, err := secp256k1VRF.NewVRFVerifier(&keys[0].sk.PublicKey)
+	if err != nil {
+		panic(err)
+	}
+	pk.ProofToHash(ucon.MakeM(seedHash(1), 1, 1), pb)
+	return false
 }
 
 func junkProof(p ProofS) []byte {
@@ -264,6 +311,58 @@ func badBytes(tag string, i, n int) []byte {
 	return b[:n]
 }
 
+// malformedMain / malformedBls: key bytes a registration could have stored that do not decode.
+// Every form is checked against the decoder itself; a form that happens to decode falls back
+// to the plain wrong-length form.
+func malformedMain(form, salt int) []byte {
+	var b []byte
+	switch form % 5 {
+	case 1:
+		b = []byte{}
+	case 2: // right length, invalid prefix
+		b = append([]byte{0x05}, badBytes("badmain33", salt, 32)...)
+	case 3: // uncompressed form, not on the curve
+		b = append([]byte{0x04}, badBytes("badmain65", salt, 64)...)
+	case 4: // compressed form, x >= p
+		b = append([]byte{0x02}, bytes.Repeat([]byte{0xff}, 32)...)
+	default:
+		b = badBytes("badmain", salt, 20)
+	}
+	ok := false
+	switch len(b) {
+	case 33:
+		_, err := crypto.DecompressPubkey(b)
+		ok = err == nil
+	case 65:
+		_, err := crypto.UnmarshalPubkey(b)
+		ok = err == nil
+	}
+	if ok {
+		return badBytes("badmain", salt, 20)
+	}
+	return b
+}
+
+func malformedBls(form, salt int) []byte {
+	var b []byte
+	switch form % 4 {
+	case 1:
+		b = []byte{}
+	case 2:
+		b = bytes.Repeat([]byte{0xff}, 96)
+	case 3:
+		b = make([]byte, 96)
+	default:
+		b = badBytes("badbls", salt, 95)
+	}
+	if len(b) == 96 {
+		if _, err := blsMgr.DecPublicKey(b); err == nil {
+			return badBytes("badbls", salt, 95)
+		}
+	}
+	return b
+}
+
 // buildLB builds the reader and rewrites lb.Vals into the order of
 // state.Validators (stake-descending), which is the order voter indexes use.
 func buildLB(lb *LBS) (*vldStub, uint64) {
@@ -276,11 +375,11 @@ func buildLB(lb *LBS) (*vldStub, uint64) {
 	for i, s := range lb.Vals {
 		mainPub := keys[s.Key].pub
 		if s.MainBad {
-			mainPub = badBytes("badmain", s.Key*100+i, 20)
+			mainPub = malformedMain(s.BadForm, s.Key*100+i)
 		}
 		blsPub := keys[s.Bls].blsPub
 		if s.BlsBad {
-			blsPub = badBytes("badbls", s.Bls*100+i, 95)
+			blsPub = malformedBls(s.BadForm, s.Bls*100+i)
 		}
 		st := new(big.Int).SetUint64(s.Stake)
 		v := state.NewValidator(fmt.Sprintf("v%d", i), common.Address{}, common.Address{}, params.ValidatorRole(s.Role),
@@ -711,8 +810,17 @@ func caseCoqExt(c *Case, b *built, ext *coqExt) string {
 	}
 	var honest []pu
 	seen := map[int]bool{}
+	var crashTbl []string
+	crashSeen := map[int]bool{}
 	pid := func(p ProofS) int {
-		id := proofIDs.id(proofBytes(p))
+		pb := proofBytes(p)
+		id := proofIDs.id(pb)
+		if p.Kind != 0 && !crashSeen[id] {
+			crashSeen[id] = true
+			if proofCrashes(pb) {
+				crashTbl = append(crashTbl, fmt.Sprintf("%d", id))
+			}
+		}
 		if p.Kind == 0 && !seen[id] {
 			seen[id] = true
 			honest = append(honest, pu{p, id})
@@ -890,7 +998,7 @@ func caseCoqExt(c *Case, b *built, ext *coqExt) string {
 		qTbl = append(qTbl, fmt.Sprintf("((%d, true), %d)", t, quorumOf(t, true)))
 		qTbl = append(qTbl, fmt.Sprintf("((%d, false), %d)", t, quorumOf(t, false)))
 	}
-	tables := fmt.Sprintf("(mkT %s %s %s %s %s %s)", vf.List(vrfTbl), vf.List(seatTbl), vf.List(prioTbl), vf.List(qTbl), vf.List(sigTbl), vf.List(recTbl))
+	tables := fmt.Sprintf("(mkT %s %s %s %s %s %s %s)", vf.List(vrfTbl), vf.List(seatTbl), vf.List(prioTbl), vf.List(qTbl), vf.List(sigTbl), vf.List(recTbl), vf.List(crashTbl))
 	var vers []string
 	for _, v := range c.Vers {
 		vers = append(vers, fmt.Sprintf("(%d, mkCP %d %d %d true)", v.V, v.CP.PT, v.CP.VT, v.CP.CVT))
@@ -1030,14 +1138,11 @@ func propertyHolds(c *Case, b *built, rx relax) bool {
 }
 
 const (
-	whatThr       = "C01-thresholds-read-from-header"
-	whatMember    = "C01-non-member-or-offline-voter-counted"
-	whatZero      = "C01-proposer-with-zero-seats"
-	whatUnknown   = "C01-accepted-without-protocol-quorum"
-	whatSeal      = "C01-header-signature-not-by-the-proposer-key"
-	whatPanic     = "C01-verifier-panics"
-	whatPanicBls  = "C01-panic-on-neutral-bls-element"
-	whatPanicSeat = "C01-panic-on-threshold-above-total-stake"
+	whatThr     = "C01-thresholds-read-from-header"
+	whatMember  = "C01-non-member-or-offline-voter-counted"
+	whatZero    = "C01-proposer-with-zero-seats"
+	whatUnknown = "C01-accepted-without-protocol-quorum"
+	whatSeal    = "C01-header-signature-not-by-the-proposer-key"
 )
 
 type hit struct {
@@ -1070,13 +1175,9 @@ func loadCorpusH(dir string) []HCase {
 // oracle returns the `what` keys of the violations an accepted case shows.
 func oracle(c *Case, b *built) []string {
 	if c.Verdict == 11 {
-		switch {
-		case strings.Contains(c.Err, "bls.MillerLoop"):
-			return []string{whatPanicBls}
-		case strings.Contains(c.Err, "cephes: parameter out of bounds") && strings.Contains(c.Err, "ucon.choose"):
-			return []string{whatPanicSeat}
-		}
-		return []string{whatPanic}
+		// a crash of the verifier is an outcome of its own (recorded in the distribution as PANIC
+		// and compared with the model's EPanic); it is not an acceptance, so not a C01 violation
+		return nil
 	}
 	if c.Verdict != 0 {
 		return nil
@@ -1157,11 +1258,13 @@ func (g *gen) lookback(nKeysUsed int, big bool) LBS {
 		if r.Chance(12) {
 			v.Status = 0
 		}
-		if r.Chance(2) {
+		if r.Chance(3) {
 			v.MainBad = true
+			v.BadForm = r.Intn(20)
 		}
-		if r.Chance(2) {
+		if r.Chance(3) {
 			v.BlsBad = true
+			v.BadForm = r.Intn(20)
 		}
 		if r.Chance(3) {
 			v.Stake = 0
@@ -1407,7 +1510,7 @@ func (g *gen) readd(c *Case, lb LBS, u *UVS, dropped VoteS, q uint64, seed int, 
 		tag = "gap_filled_by_non_members"
 	case 13: // garbage proof
 		d := dropped
-		d.Proof.Kind = 1 + r.Intn(3)
+		d.Proof.Kind = malformedKind(r)
 		u.Votes = append(u.Votes, d)
 		u.Agg.Parts = append(u.Agg.Parts, sigOf(d))
 		tag = "readd_garbage_proof"
@@ -1475,7 +1578,7 @@ func (g *gen) forgeVotes(c *Case, lb LBS, u *UVS, seed int, step uint32, res *vf
 		}
 	case 8: // garbage proof
 		if i := pick(); i >= 0 {
-			u.Votes[i].Proof.Kind = 1 + r.Intn(3)
+			u.Votes[i].Proof.Kind = malformedKind(r)
 			tag = "proof_garbage"
 		}
 	case 9: // aggregate misses one signer
@@ -1838,7 +1941,7 @@ func (g *gen) forgeProposer(c *Case, total uint64, res *vf.Result) {
 		cs.Proof.Seed += 1
 		tag = "proposer_proof_other_seed"
 	case 7:
-		cs.Proof.Kind = 1 + r.Intn(3)
+		cs.Proof.Kind = malformedKind(r)
 		tag = "proposer_proof_garbage"
 	case 8:
 		cs.Signer = -1 - r.Intn(2)
